@@ -22,7 +22,6 @@ sys.path.insert(0, os.path.dirname(os.path.dirname(os.path.abspath(__file__))))
 import common  # noqa: E402
 
 KEY_MIDSEND = "c10:worker-killed-mid-result-send:manager-blocked-in-recv"
-KEY_STALE = "c10:worker-respawned-while-manager-asleep:death-unnoticed-until-next-event"
 DEATH_IN_TASK = ("respawn", "mgr_busy", "arg_unpickle", "task_start", "mid_task", "result_pickle", "mid_send", "after_send")
 UNSERIALIZE = ("arg_unloadable", "result_garbage")
 BETWEEN = ("idle_settled", "idle_unsettled", "startup_gen", "startup_reduce", "submit_window")
@@ -40,8 +39,6 @@ def sc(kind, how="SIGKILL", n_jobs=2, victims=(0,), managed=False, n_tasks=8, sl
        watchdog=60, n_tasks1=None):
     if kind == "mid_send":
         watchdog = 12          # the known finding F27 hangs: do not wait a minute for it
-    if kind == "respawn" and n_tasks1 == 1:
-        watchdog = 15          # the known finding F28 delays the error by the idle time-out (300 s)
     if n_tasks1:
         return {"kind": kind, "how": how, "n_jobs": n_jobs, "victims": list(victims), "managed": managed,
                 "n_tasks": n_tasks, "sleep": sleep, "gen": gen, "big": big, "watchdog": watchdog, "n_tasks1": n_tasks1}
@@ -102,8 +99,8 @@ def quick_scenarios(rng):
         sc("submit_window", "SIGKILL", 3, [0, 1, 2], managed=True),
         sc("submit_window", "SIGTERM", 2, [1], managed=True),
         # workers respawned by the submit itself (all exited cleanly, as on idle time-out) while the manager thread
-        # sleeps in wait(): single-task call whose worker dies (F28), and a many-task call (other results wake the
-        # manager up)
+        # sleeps in wait(): single-task call whose worker dies (hung before fix F38: the manager watched the sentinel
+        # list built before the spawn), and a many-task call
         # death while call items that do not fit in the call pipe (> 64 KiB each, more tasks than workers) are still
         # buffered in the queue feeder thread: terminate_broken / shutdown must not block on that thread
         sc("mid_task", "SIGKILL", 2, [0], n_tasks=6, sleep=0.6, big=2000000),
@@ -476,7 +473,6 @@ def run(ctx):
     # deterministic by construction = scripted reproduction); confirmed => VIOLATION, else inconclusive
     inconclusive = 0
     midsend_hangs = 0
-    stale_hangs = set()     # scenarios on which model (current process set) and code (stale set) are KNOWN to differ: F28
     for i, s, r, hang in hangs:
         if s["kind"] == "mid_send" and hang["call"] == 1 and hang["manager_in_recv"]:
             midsend_hangs += 1
@@ -484,21 +480,15 @@ def run(ctx):
                           "in result_reader.recv() and Parallel.__call__ never returns (watchdog %ds)" % s["watchdog"],
                           {"kind": "known-hang", "scenario": s}, finding_key=KEY_MIDSEND)
             continue
-        if s["kind"] == "respawn" and hang["call"] == 1 and hang["manager_in_wait"]:
-            stale_hangs.add(i)
-            ctx.violation("workers respawned by submit while the manager thread sleeps in wait(): the death of a new "
-                          "worker is not noticed (stale sentinel list) until another event arrives; a single-task call "
-                          "does not return within %d s (idle time-out is 300 s)" % s["watchdog"],
-                          {"kind": "known-hang", "scenario": s}, finding_key=KEY_STALE)
-            continue
         if len([v for v in viol if v[1].get("kind") == "hang"]) >= 3:
             continue
         r2 = run_all(ctx, [s], tag="re%d" % i)[0]
         _, hang2 = oracle(s, r2)
         if hang2:
             viol.append(("call %d never returned after a %s/%s fault (watchdog %d s, reproduced twice); "
-                         "manager thread blocked in recv: %s" % (hang2["call"], s["kind"], s["how"], s["watchdog"],
-                                                                  hang2["manager_in_recv"]),
+                         "manager thread blocked in recv: %s, in wait(): %s" % (
+                             hang2["call"], s["kind"], s["how"], s["watchdog"], hang2["manager_in_recv"],
+                             hang2["manager_in_wait"]),
                          {"kind": "hang", "scenario": s, "thread_dump": r2["dump"][-2500:]}))
         else:
             inconclusive += 1
@@ -511,8 +501,6 @@ def run(ctx):
         preds = model_predictions(ctx, scenarios, results)
         for i, (s, r, ps) in enumerate(zip(scenarios, results, preds)):
             n_model += len(ps)
-            if i in stale_hangs:
-                continue        # the disagreement IS finding F28 (C10_stale_watch_refuted), already reported
             if not any(agrees(s, r, p) for p in ps):
                 disagreements.append({"scenario": s, "model": [{k: p[k] for k in ("classes", "blocked", "stuck", "fresh")} for p in ps],
                                       "impl": {"classes": [klass(c) for c in r["calls"]], "hung_call": r["hung_call"],
@@ -551,7 +539,7 @@ def run(ctx):
         "scenario_kinds": stats["kinds"],
         "outcome_classes_per_kind": {k: [json.dumps(x) for x in v][:6] for k, v in stats["classes"].items()},
         "class_legend": "0 ok list, 1 TerminatedWorkerError, 2 BrokenProcessPool, 3 shutdown error, 5 other exception, 9 wrong list",
-        "hangs_seen": len(hangs), "hangs_known_midsend": midsend_hangs, "hangs_known_stale_watch": len(stale_hangs), "inconclusive_timeouts": inconclusive,
+        "hangs_seen": len(hangs), "hangs_known_midsend": midsend_hangs, "inconclusive_timeouts": inconclusive,
         "disagreements": len(disagreements),
         "injection_wall_s": round(time.time() - t0, 1),
         "max_call_latency_s": max([c["secs"] for r in results for c in r["calls"] if c] or [0]),
